@@ -210,7 +210,15 @@ def _explore_job(job):
         return None
 
     for pre in prefixes:
-        sched.explore(lambda: workload(name), flt, bound, check, prefix=pre, stats=stats)
+        if job.get("single"):
+            x = sched.Execution(workload(name), pre, flt).run()
+            stats["executions"] += 1
+            stats["points_max"] = max(stats["points_max"], len(x.points))
+            v = check(x)
+            if v is not None:
+                stats["violations"].append((x.choices, v))
+        else:
+            sched.explore(lambda: workload(name), flt, bound, check, prefix=pre, stats=stats)
     return dict(executions=stats["executions"], points_max=stats["points_max"], violations=stats["violations"][:20], n_viol=len(stats["violations"]), outcomes=sorted(stats["outcomes"])[:5], n_outcomes=len(stats["outcomes"]))
 
 
@@ -235,7 +243,25 @@ def run(ctx):
             raise common.HarnessError(f"{name}: replaying the root schedule gave different observations")
         mkey = f"{name}/b{bound}/{mode}"
         meta[mkey] = dict(workload=name, mode=mode, bound=bound, points=len(x.points), threads=len(ref), root_ok=[r == s for r, s in zip(x.results, ref)], children=len(kids))
-        per = max(1, len(kids) // (common.NCPU * (3 if bound < 2 else 12)))
+        # prefixes that have not used a preemption yet (alternatives at free switch points) head
+        # large subtrees: expand them once more here so that the jobs are balanced
+        singles = []
+        parent = x
+        nxt = []
+        for kpre in kids:
+            i = len(kpre) - 1
+            if not parent.points[i].running_enabled:
+                # alternative at a free switch point: no preemption used yet
+                singles.append(kpre)
+                _, sub = sched.children(lambda: workload(name), flt, bound, prefix=kpre)
+                nxt += sub
+            else:
+                nxt.append(kpre)
+        kids = nxt
+        meta[mkey]["children"] = len(kids)
+        if singles:
+            jobs.append(dict(workload=name, mkey=mkey, mode=mode, bound=bound, prefixes=singles, single=True))
+        per = max(1, len(kids) // (common.NCPU * (12 if bound < 2 else 40)))
         for lo in range(0, len(kids), per):
             jobs.append(dict(workload=name, mkey=mkey, mode=mode, bound=bound, prefixes=kids[lo : lo + per]))
         if not all(meta[mkey]["root_ok"]):
